@@ -175,6 +175,46 @@ def load_known():
         return json.load(f)
 
 
+def replay(prop, path):
+    """re-evaluate the concrete inputs stored in a replay file on the CURRENT tree; exit 1 if any still fails"""
+    nv.setup_env(jit=False)
+    with open(path) as f:
+        rep = json.load(f)
+    if rep.get("kind") == "no-failing-input-found":
+        print("this replay names the theorem / correspondence component that no longer checks:")
+        print(json.dumps(rep.get("no_longer_checks"), indent=1)[:3000])
+        return 1
+    import props_sweep
+    from props import _solver
+    still = 0
+    for v in rep.get("violations", []):
+        try:
+            if "alg" in v and "box" in v:
+                box = [tuple(d) for d in v["box"]]
+                st, out = nv.impl_prop(v["alg"], v["params"], box)
+                bad = props_sweep.check_case(v["alg"], v["params"], box, st, out, {"sound", "ground", "entail", "exact", "oob"})
+                print(("STILL FAILS " if bad else "passes now  ") + json.dumps({k: v[k] for k in ("alg", "params", "box")}) + (" :: " + bad[0][1] if bad else ""))
+                still += 1 if bad else 0
+            elif v.get("op") in ("solve", "opt") or ("problem" in v and "cfg" in v and "rewrite" not in v):
+                c = dict(v)
+                c.setdefault("op", "solve")
+                prob = nv.Prob.from_json(c["problem"])
+                cfg = nv.Cfg(**c["cfg"])
+                res = nv.impl_solve(prob, cfg, c.get("limit")) if c["op"] == "solve" else nv.impl_optimize(prob, cfg, c["v"], c["minimize"])
+                bad = _solver.direct_checks(c, res, {"sat", "enum", "opt", "stats", "term", "oob", "stack", "crash"})
+                print(("STILL FAILS " if bad else "passes now  ") + json.dumps({"op": c["op"], "problem": c["problem"]})[:300] + (" :: " + bad[0][1] if bad else ""))
+                still += 1 if bad else 0
+            else:
+                print("not replayable generically (re-run the check): " + json.dumps(v)[:300])
+        except Exception as e:  # noqa: BLE001
+            print("replay raised " + type(e).__name__ + ": " + str(e)[:200])
+            still += 1
+    if still:
+        print(f"VIOLATION property={prop} replay={path}")
+        return 1
+    return 0
+
+
 def main():
     ap = argparse.ArgumentParser()
     ap.add_argument("prop")
@@ -202,6 +242,8 @@ def main():
         print(f"no check for {prop}")
         return 2
     report = nv.Report(prop, tier, seed)
+    if a.replay:
+        return replay(prop, a.replay)
     try:
         th = nv.tree_hash()
         report.cov["tree_hash"] = th
